@@ -441,11 +441,18 @@ func H_C06() {
 	lines := LineTable(in)
 	lineOK := true
 	last := -1
-	for _, e := range a.Errs {
+	for ei, e := range a.Errs {
 		if len(e.Msg) == 0 {
 			Fail("C06:error-message-non-empty", "")
 		}
 		if e.Pos == nil {
+			// no position = end of input: nothing in the source comes after it
+			for _, later := range a.Errs[ei+1:] {
+				if later.Pos != nil {
+					Fail("C06:errors-in-source-order", "the end-of-input error is delivered before an error with a position")
+					break
+				}
+			}
 			continue
 		}
 		Cover("error-with-position")
